@@ -132,14 +132,35 @@ MaxU64 == <<49, 56, 52, 52, 54, 55, 52, 52, 48, 55, 51, 55, 48, 57, 53, 53, 49, 
 ScanOk(d)  == Lead20(d) # <<>> /\ BytesCmp(PadLeft20(Lead20(d)), MaxU64) <= 0
 ScanVal(d) == PadLeft20(Lead20(d))
 Zero20 == [i \in 1..20 |-> 48]
-\* decimal addition of two 20-digit strings (a carry out of the first digit is outside the claimed range)
+\* decimal addition of two digit strings of equal length, from position i down (a carry out of the first digit is dropped)
 RECURSIVE SumFrom(_, _, _, _)
 SumFrom(a, b, i, c) == IF i = 0 THEN <<>>
                        ELSE LET t == (a[i] - 48) + (b[i] - 48) + c IN SumFrom(a, b, i - 1, t \div 10) \o <<48 + (t % 10)>>
 Add20(a, b) == SumFrom(a, b, 20, 0)
+RECURSIVE DiffFrom(_, _, _, _)
+DiffFrom(a, b, i, c) == IF i = 0 THEN <<>>
+                        ELSE LET t == (a[i] - 48) - (b[i] - 48) - c
+                             IN DiffFrom(a, b, i - 1, IF t < 0 THEN 1 ELSE 0) \o <<48 + (IF t < 0 THEN t + 10 ELSE t)>>
+
+(* The arithmetic of the generator is Go's uint64 addition `lastValue + delta`: suffixes and deltas range over  *)
+(* 0 .. 2^64-1 (far outside TLC's 32-bit integers, hence decimal strings) and a sum above 2^64-1 WRAPS modulo  *)
+(* 2^64 without an error.  Sum21 is the exact sum (21 digits), Exceeds64 says that it is not a uint64, AddU64  *)
+(* is what the code computes.                                                                                *)
+Two64 == <<49, 56, 52, 52, 54, 55, 52, 52, 48, 55, 51, 55, 48, 57, 53, 53, 49, 54, 49, 54>>   \* 18446744073709551616
+Sum21(a, b)    == SumFrom(<<48>> \o a, <<48>> \o b, 21, 0)
+Exceeds64(s21) == BytesCmp(s21, <<48>> \o MaxU64) > 0
+AddU64(a, b)   == LET s == Sum21(a, b)
+                  IN SubSeq(IF Exceeds64(s) THEN DiffFrom(s, <<48>> \o Two64, 21, 0) ELSE s, 2, 21)
+
+(* The deltas of a put.  p.deltas holds them as TLC integers (0 <= d < 10^9); a delta that does not fit is given *)
+(* as its decimal digits in the optional field p.bd, a sequence parallel to p.deltas whose non-empty elements    *)
+(* take precedence (any uint64: 2^31, 2^63, 2^64-1 ...).  Puts without the field are puts with small deltas.    *)
+BigOf(p)      == IF "bd" \in DOMAIN p THEN p.bd ELSE <<>>
+Delta20(p, i) == LET b == BigOf(p) IN IF i <= Len(b) /\ b[i] # <<>> THEN PadLeft20(b[i]) ELSE Pad20(p.deltas[i])
 
 (* findCurrentLastKeyInSequence: the numeric parts of the highest key below prefix-<max>, *)
-(* provided that key starts with the prefix.                                              *)
+(* provided that key starts with the prefix.  <max> is 2^64-1: suffixes are uint64, a     *)
+(* sequence that has passed 2^31 or 2^63 is looked up like any other.                     *)
 SeqParts(kv, prefix) ==
     LET below == {k \in DOMAIN kv : KeyLt(k, prefix \o MaxSeqSuffix)}
         last  == IF below = {} THEN <<>> ELSE MaxKeyOf(below)
@@ -147,10 +168,10 @@ SeqParts(kv, prefix) ==
     IN Tail(SplitDash(rest))
 
 RECURSIVE SeqSuffix(_, _, _)
-SeqSuffix(parts, deltas, i) ==
-    IF i > Len(deltas) THEN <<>>
-    ELSE <<DASH>> \o Add20(IF i <= Len(parts) THEN ScanVal(parts[i]) ELSE Zero20, Pad20(deltas[i]))
-         \o SeqSuffix(parts, deltas, i + 1)
+SeqSuffix(parts, p, i) ==
+    IF i > Len(p.deltas) THEN <<>>
+    ELSE <<DASH>> \o AddU64(IF i <= Len(parts) THEN ScanVal(parts[i]) ELSE Zero20, Delta20(p, i))
+         \o SeqSuffix(parts, p, i + 1)
 
 \* outcome of generateUniqueKeyFromSequences
 SeqOutcome(kv, p) ==
@@ -158,16 +179,16 @@ SeqOutcome(kv, p) ==
     IF ~p.pkey THEN "ERR_MISSING_PARTITION_KEY"
     ELSE IF p.exp # NoExp THEN "UNEXPECTED_VERSION_ID"
     ELSE IF Len(parts) > Len(p.deltas) THEN "ERR_MISSING_SEQUENCE_DELTAS"
-    ELSE IF p.deltas[1] = 0 THEN "ERR_SEQUENCE_DELTA_IS_ZERO"
+    ELSE IF Delta20(p, 1) = Zero20 THEN "ERR_SEQUENCE_DELTA_IS_ZERO"
     ELSE IF \E i \in 1..Len(parts) : ~ScanOk(parts[i]) THEN "ERR_BAD_SUFFIX"
     ELSE "OK"
-SeqNewKey(kv, p) == p.key \o SeqSuffix(SeqParts(kv, p.key), p.deltas, 1)
+SeqNewKey(kv, p) == p.key \o SeqSuffix(SeqParts(kv, p.key), p, 1)
 
 (* What the leader refuses before it allocates an offset and logs the request              *)
 (* (leader_controller.go: Write/WriteBlock): sequence puts that can never be applied.      *)
 (* ... and no secondary-index declaration, whatever it looks like (see "Secondary-index declarations" below) *)
 DeclRefused(d)   == FALSE
-PutWellFormed(p) == /\ p.deltas # <<>> => (p.pkey /\ p.deltas[1] > 0)
+PutWellFormed(p) == /\ p.deltas # <<>> => (p.pkey /\ Delta20(p, 1) # Zero20)
                     /\ \A i \in 1..Len(p.idx) : ~DeclRefused(p.idx[i])
 WellFormed(req)  == \A i \in 1..Len(req.puts) : PutWellFormed(req.puts[i])
 
@@ -312,8 +333,30 @@ Apply(s, req, off, ts) ==
 (* sequence-key generator that depends on the state, see design/C13.md).              *)
 SeqStateError(s, req) ==
     \E i \in 1..Len(req.puts) :
+        req.puts[i].deltas # <<>> /\      \* (only the generator yields these outcomes)
         LET a == FoldPuts([s |-> s, out |-> <<>>, nf |-> EmptyNf], SubSeq(req.puts, 1, i), 1, 0)
         IN a.out[i].st \in {"ERR_MISSING_SEQUENCE_DELTAS", "ERR_BAD_SUFFIX"}
+
+(* Requests with a sequence put whose EXACT result is not a uint64: some suffix of the highest existing key of  *)
+(* the prefix plus its delta exceeds 2^64-1 (stated on the highest key "prefix-...", not through SeqParts).    *)
+(* The code does not refuse them: the sum wraps modulo 2^64 (AddU64), so the generated key is not above the     *)
+(* existing ones and can be the key of a live record; and since the look-up is strictly below                  *)
+(* "prefix-18446744073709551615", keys whose first suffix is 2^64-1 are not seen by it at all (every put on    *)
+(* such a prefix is in this class, the first delta being positive).  Apply transcribes what the code does;     *)
+(* the laws of C16 are claimed for the requests outside this class (design/C16.md, finding seqOverflow).       *)
+HighestParts(kv, prefix) ==
+    LET ex == {k \in DOMAIN kv : HasPrefix(k, prefix \o <<DASH>>)}
+        hk == MaxKeyOf(ex)
+    IN IF ex = {} THEN <<>> ELSE Tail(SplitDash(SubSeq(hk, Len(prefix) + 1, Len(hk))))
+PutOverflows(kv, p) ==
+    /\ p.deltas # <<>>
+    /\ LET hi == HighestParts(kv, p.key) IN
+       \E i \in 1..Len(p.deltas) :
+          Exceeds64(Sum21(IF i <= Len(hi) /\ ScanOk(hi[i]) THEN ScanVal(hi[i]) ELSE Zero20, Delta20(p, i)))
+SeqOverflow(s, req) ==
+    \E i \in 1..Len(req.puts) :
+        req.puts[i].deltas # <<>> /\
+        PutOverflows(FoldPuts([s |-> s, out |-> <<>>, nf |-> EmptyNf], SubSeq(req.puts, 1, i - 1), 1, 0).s.kv, req.puts[i])
 
 -----------------------------------------------------------------------------
 (* Observation: what the reads of the real DB are compared with.           *)
